@@ -15,5 +15,56 @@ def jobs(tier):
     return hist.jobs_for(PROPS, hist.standard_plans(tier)) + extra_jobs(tier)
 
 
+def reindex(ctx, norders=3):
+    """Inductive step over the periodic re-indexing of the open-order list: the container's traversal counter is an
+    arbitrary (symbolic) value, so 'however long the history' is covered by one step from any reachable state.
+    Prices are concrete here (the subject is the container, not the arithmetic)."""
+    from decimal import Decimal
+    from .exch import World, BUY, SELL, run
+    from symx import Implies
+    init = {"USD": Decimal(10 ** 9), "BTC": Decimal(10 ** 6), "ETH": Decimal(10 ** 6)}
+    w = World(ctx, props=["C05"], npairs=2, bp=8, qp=2, fee="none", namounts=1, init=init)
+    FLAT = ("100", "101", "99", "100")
+    w.feed_bar("b0", pair_idx=0, ohlc=FLAT)
+    w.feed_bar("b0e", pair_idx=1, ohlc=FLAT)
+    oids = []
+    for i in range(norders):
+        pidx = ctx.choice("order%d_pair" % i, 2)
+        side = BUY if i % 2 == 0 else SELL
+        oid = w.place("o%d" % i, kind="limit", side=side, pair_idx=pidx, price="50" if side == BUY else "200")
+        oids.append(oid)
+    w.check("orders placed")
+    cont = w.e._order_mgr._orders
+    cont._reindex_counter = ctx.int("reindex_counter", 0, 10 ** 9)
+    if ctx.flag("cancel_one_first"):
+        w.cancel(oids[0])
+        w.check("cancel before traversal")
+    # traversals through the real call sites: bars of either pair and listings, in a solver-chosen order
+    for n in range(3):
+        what = ctx.choice("traversal%d" % n, 3)
+        if what == 2:
+            run(w.e.get_open_orders())
+            w.check("listing %d" % n)
+        else:
+            b, pre = w.feed_bar("t%d" % n, pair_idx=what, ohlc=FLAT)
+            w.check("bar %d" % n, pre, b)
+    # every order still open must still be reachable by the matching engine: bars that cross every limit
+    for pidx in (0, 1):
+        b, pre = w.feed_bar("final%d" % pidx, pair_idx=pidx, ohlc=("100", "300", "10", "100"))
+        bal, by_id, deltas = w.check("final bar %d" % pidx, pre, b)
+        for oid in oids:
+            st = w.orders[oid]
+            if st["pair"] != w.pairs[pidx] or not pre[oid].is_open:
+                continue
+            ctx.prove(by_id[oid].amount_filled == st["amount"],
+                      "C05 an open order keeps being processed by later bars however long the history (re-indexing "
+                      "never loses it)")
+    ctx.cover("end of history")
+    ctx.cover("a request was rejected: place")
+
+
 def extra_jobs(tier):
-    return []
+    from symx.run import Job
+    n = 3 if tier == "quick" else 4
+    return [Job("reindex inductive step %d orders" % n, "reindex", dict(norders=n), max_paths=2000000, split=200,
+                validate_every=200, sample_every=400)]
